@@ -12,7 +12,7 @@ package main
 // EstimatedSize, Stats, Wait and Close.
 
 func init() {
-	props["C19"] = &propDef{gen: genC19, check: func(rd *RunData) []Violation { return nil }}
+	props["C19"] = &propDef{gen: genC19, check: checkC19}
 }
 
 func genC19(g *gen, tier string) *Scenario {
@@ -72,4 +72,26 @@ func genC19(g *gen, tier string) *Scenario {
 		sc.Epilogue = []Op{{Kind: "waitidle"}}
 	}
 	return sc
+}
+
+
+// checkC19 has no oracle of its own (the race detector is the oracle); it
+// measures which of the rarely-overlapped operations actually overlapped a
+// writer in this run.
+func checkC19(rd *RunData) []Violation {
+	for _, r := range rd.Recs {
+		switch r.Op.Kind {
+		case "save", "range", "len", "size", "stats", "wait", "close":
+			for _, w := range rd.Recs {
+				if (isWrite(w.Op.Kind) || w.Op.Kind == "get") && w.Client != r.Client && w.Inv < r.Ret && (w.Open || w.Ret > r.Inv) {
+					probe("c19." + r.Op.Kind + "-overlapped-" + w.Op.Kind)
+					break
+				}
+			}
+		}
+	}
+	if len(rd.Listener) > 0 {
+		probe("c19.listener-called")
+	}
+	return nil
 }
